@@ -248,14 +248,16 @@ func runMerge(a, b *tree, pol string, fos []fieldOpt, repr string, rng *rand.Ran
 	sep := ucfg.PathSep(".")
 	obsOpts := []ucfg.Option{sep}
 	srcOpts := []ucfg.Option{sep}
-	if hasAlias(b) {
-		// the source holds ${references}: variable expansion on for the source, the merge and the reads
+	dstOpts := []ucfg.Option{sep}
+	if hasAlias(b) || hasAlias(a) {
+		// an operand holds ${references}: variable expansion on for both operands, the merge and the reads
 		opts = append(opts, ucfg.VarExp)
 		obsOpts = append(obsOpts, ucfg.VarExp)
 		srcOpts = append(srcOpts, ucfg.VarExp)
+		dstOpts = append(dstOpts, ucfg.VarExp)
 	}
 	panicked, msg := guard(func() {
-		dst, err := ucfg.NewFrom(a.goOrdered(rng), sep)
+		dst, err := ucfg.NewFrom(a.goOrdered(rng), dstOpts...)
 		if err != nil {
 			out.Err = "dst " + errClass(err)
 			return
